@@ -70,9 +70,12 @@ def b_forms(ch):
     n = ch.choose('n', [2, 1, 3])
     first = ch.choose('first', list(range(len(SUB))))
     sign = ch.choose('sign', ['+', '-', 'mixed', 'mixed-last'])
+    repeat = ch.choose('repeat-nuclide', ['no', 'last=first', 'adjacent'])
     entries = []
     for i in range(n):
         z, a = SUB[(first + i) % len(SUB)]
+        if n > 1 and ((repeat == 'last=first' and i == n - 1) or (repeat == 'adjacent' and i == 1)):
+            z, a = SUB[first % len(SUB)]          # the same nuclide listed twice (valid MCNP)
         f = ch.choose('frac%d' % i, FRACS[i:] + FRACS[:i])
         neg = (sign == '-') or (sign == 'mixed' and i == 0) or (sign == 'mixed-last' and i == n - 1)
         if sign.startswith('mixed') and n == 1:
